@@ -1699,12 +1699,65 @@ fn decode(path: &str, out_path: &str) {
     println!("{}", json!({"inputs": n, "panics": n_panics, "errors": n_errors, "packets": n_packets}));
 }
 
+// ------------------------------------------------------------------------------------------------
+// cross: what the routing core hands to a link (a packet that may carry MQTT 5 properties) encoded by the
+// link's protocol, whichever it is (C20)
+// ------------------------------------------------------------------------------------------------
+fn cross(path: &str, out_path: &str) {
+    let text = std::fs::read_to_string(path).expect("input");
+    let mut out = std::io::BufWriter::new(std::fs::File::create(out_path).expect("output"));
+    let (mut n, mut bad) = (0u64, Vec::new());
+    for (i, line) in text.lines().filter(|l| !l.trim().is_empty()).enumerate() {
+        let v: Value = serde_json::from_str(line).unwrap();
+        let d = normalise(5, &v["p"]);
+        let mut fails: Vec<String> = Vec::new();
+        for target in [4u8, 5u8] {
+            // the router's packet value carries the properties whatever the link's protocol is
+            let built = guarded(|| build_d(&d, 5));
+            let p = match built {
+                Ok(Ok(p)) => p,
+                Ok(Err(e)) => { fails.push(format!("build: {e}")); continue; }
+                Err(e) => { fails.push(format!("build_panic: {e}")); continue; }
+            };
+            let w = guarded(|| {
+                let mut b = BytesMut::new();
+                let r = if target == 4 { dp::v4::V4.write(p, &mut b) } else { dp::v5::V5.write(p, &mut b) };
+                (r.map_err(|e| format!("{e:?}")), b)
+            });
+            let mut bytes = match w {
+                Ok((Ok(_), b)) => b,
+                Ok((Err(e), _)) => { fails.push(format!("write_v{target}_err: {e}")); continue; }
+                Err(e) => { fails.push(format!("write_v{target}_panic: {e}")); continue; }
+            };
+            let codec = if target == 4 { Codec::C4 } else { Codec::C5 };
+            match decode_one(codec, &mut bytes, 0) {
+                Outcome::Packet(got) => {
+                    let want = normalise(target, &d);
+                    let got = normalise(target, &got);
+                    if let Some(m) = diff("p", &got, &want) { fails.push(format!("v{target}_client_sees: {m}")); }
+                    if !bytes.is_empty() { fails.push(format!("v{target}_left {} bytes", bytes.len())); }
+                }
+                Outcome::Need(k) => fails.push(format!("v{target}_client_decode: need {k}")),
+                Outcome::Error(e) => fails.push(format!("v{target}_client_decode: error {e}")),
+                Outcome::Panic(e) => fails.push(format!("v{target}_client_decode: panic {e}")),
+            }
+        }
+        n += 1;
+        let r = json!({"i": i + 1, "ok": fails.is_empty(), "fails": fails, "p": short(&d)});
+        if !r["ok"].as_bool().unwrap() && bad.len() < 10 { bad.push(r.clone()); }
+        writeln!(out, "{}", r).unwrap();
+    }
+    out.flush().unwrap();
+    println!("{}", json!({"vectors": n, "failed_sample": bad.len(), "first_fails": bad}));
+}
+
 fn main() {
     quiet_panics();
     let args: Vec<String> = std::env::args().collect();
     match (args.get(1).map(|s| s.as_str()), args.get(2), args.get(3)) {
         (Some("roundtrip"), Some(i), Some(o)) => roundtrip(i, o),
         (Some("decode"), Some(i), Some(o)) => decode(i, o),
+        (Some("cross"), Some(i), Some(o)) => cross(i, o),
         _ => {
             eprintln!("usage: codecs roundtrip <vectors.ndjson> <results.ndjson> | codecs decode <inputs.ndjson> <results.ndjson>");
             std::process::exit(2);
